@@ -2,6 +2,7 @@
 # tools/seedcheck.sh [id ...] : run the seeded changes against the checks.
 # For each /verif/seeded/<id>/patch.diff: apply to /repo, run the repository's
 # suite, run the property's own check (plus CHECKS_EXTRA), restore /repo.
+# MUTANT_TOOL=tools/mutant-wt.sh does the same in a scratch worktree without touching /repo.
 cd /verif
 ids="$@"; [ -z "$ids" ] && ids=$(ls seeded)
 for id in $ids; do
@@ -12,5 +13,5 @@ for id in $ids; do
     [ -n "$p" ] && prop="$p"
   fi
   echo "=== seeded/$id"
-  VERIF_STALL_S=60 tools/mutant.sh /verif/seeded/$id/patch.diff $prop ${CHECKS_EXTRA:-} 2>&1 | tee /verif/seeded/$id/result.txt
+  VERIF_STALL_S=60 ${MUTANT_TOOL:-tools/mutant.sh} /verif/seeded/$id/patch.diff $prop ${CHECKS_EXTRA:-} 2>&1 | tee /verif/seeded/$id/result.txt
 done
